@@ -475,3 +475,12 @@ impl Shared {
         Arc::clone(&self.assume_valid_target_specified)
     }
 }
+
+#[cfg(feature = "verif-hooks")]
+impl Shared {
+    /// verif hook: run one freezer pass synchronously (exactly what the background thread spawned
+    /// by `spawn_freeze` does every `FREEZER_INTERVAL`)
+    pub fn verif_freeze_once(&self) -> Result<(), Error> {
+        self.freeze()
+    }
+}
